@@ -69,6 +69,10 @@ PRISTINE = {
 }
 
 
+TIMESTEPS = [0.5, 1, 0.25]
+NONE_VALUES = [3, "s", 2.5]
+
+
 def seed_all(s):
     import numpy
 
@@ -262,9 +266,15 @@ class Driver:
         PLAN.reset(armed)
         seed_all(1000 + seed)
         obs = []
-        simulator = HSimulator(faults=PLAN, observer=lambda sim: obs.append(self._observe(sim)))
+        # the simulator configuration is a function of the run seed: runs with different
+        # seeds use different time steps and report different types for `kind` (the dynamic
+        # property whose Scenic default is None) -- each is legal in a fresh process
+        simulator = HSimulator(faults=PLAN, observer=lambda sim: obs.append(self._observe(sim)),
+                               create_assign={p: 10 for p in self.prog.get("cassign", ())},
+                               none_value=NONE_VALUES[seed % len(NONE_VALUES)])
         try:
-            sim = simulator.simulate(ent["scene"], maxSteps=self.prog["term"] + 2, timestep=0.5)
+            sim = simulator.simulate(ent["scene"], maxSteps=40,
+                                     timestep=TIMESTEPS[seed % len(TIMESTEPS)])
             res = ("done", canon.canon_result(sim))
         except core.CaseTimeout:
             raise
@@ -435,7 +445,9 @@ class Driver:
                 return
             ne = {"scene": scene, "snap": snap, "seed": ent["seed"], "controls": {},
                   "counts": {}}
-            for seed, ctl in ent["controls"].items():
+            # the controls are re-run in the *reverse* of their original order: what a run
+            # returns must not depend on which runs the scenario has seen before
+            for seed, ctl in reversed(list(ent["controls"].items())):
                 if ctl is None:
                     continue
                 kind, res, _ = self._run(ne, seed)
@@ -535,6 +547,7 @@ def make_machine(tier, on_finish, stop_at=None):
             self._do("compile", {"prog": prog})
             self._do("generate", {"seed": seed})
             self._do("fault", {"scene": 0, "seed": rseed, "site": site, "k": k, "exc": exc})
+            self._do("simulate", {"scene": 0, "seed": (rseed + 1) % 3})
 
         @precondition(lambda self: self.d.compiles < 2 and self.d.rules > 6)
         @rule(prog=c14_gen.programs(), seed=st.integers(0, 3))
@@ -674,6 +687,7 @@ def setup_process():
           and ev(prog, ["Main", "Sub0"], 0, "foo") == (101, 0)
           and ev(prog, ["Main", "Sub0", "Sub1"], 0, "foo") == (201, 1)
           and ev(prog, ["Main", "Sub0", "Sub1"], 0, "bar") == (112, 0)
+          and ev(dict(prog, cassign=["baz"]), ["Main", "Sub0"], 1, "baz") == (13, None)
           and ev(prog, ["Main", "Sub1"], 1, "behavior") == ("Alt1", 1)
           and ev(prog, ["Main"], 1, "behavior") == (None, None)
           and c14_gen.statement_rank(prog, 0, 0, "bar") == 1
@@ -686,7 +700,8 @@ def setup_process():
         "subs": [{"ovr": [[0, [["foo", 100]]]], "life": 2, "compose": None, "fsetup": True,
                   "fcompose": False}],
         "main": [["wait"], ["do", [0]]], "pre": True, "inv": False, "intr": True, "mon": True,
-        "reqa": True, "sreq": True, "rec": True, "term": 6}}],
+        "reqa": True, "sreq": True, "rec": True, "term": 6, "termsec": False,
+        "cassign": ["foo"]}}],
         ["generate", {"seed": 0}], ["fault", {"scene": 0, "seed": 0, "site": 0, "k": 0,
                                                 "exc": 0}]]
     d = Driver()
